@@ -27,6 +27,19 @@ def stress(ctx, name, G, N, seed, mode, race=False):
                        env={"GORACE": "halt_on_error=0 exitcode=66"})
     racy = "DATA RACE" in p.stderr
     if p.returncode not in (0, 66) or (p.returncode == 66 and not racy):
+        # the worker died.  If the Go runtime reports a panic / fatal error whose goroutine was inside the
+        # library, concurrent logging crashed the process: that is a violation, not an infrastructure problem
+        err = p.stderr
+        for mark in ("fatal error: ", "panic: "):
+            i = err.find(mark)
+            if i >= 0:
+                trace = err[i:i + 6000]
+                first_goroutine = trace.split("\n\ngoroutine ")[0:2]
+                if any("github.com/hedzr/logg/slog." in part for part in first_goroutine):
+                    ctx.finding("crash:library", "the worker process crashed inside the library during concurrent logging (run %s, G=%d N=%d "
+                                "seed=%d mode=%s):\n%s" % (name, G, N, seed, mode, trace[:1800]),
+                                dict(kind="pool", run=dict(name=name, G=G, N=N, seed=seed, mode=mode, race=race)))
+                    return None, racy, err
         raise Undecided("pool-stress %s failed rc=%s\n%s" % (name, p.returncode, p.stderr[-3000:]))
     return tp, racy, p.stderr
 
@@ -66,6 +79,8 @@ def run(ctx, replay):
                      dict(name="race-free3", G=3, N=2000, seed=s * 11 + 7, mode="free", race=True)]
     for rn in runs:
         tp, racy, err = stress(ctx, rn["name"], rn["G"], rn["N"], rn["seed"], rn["mode"], race=rn["race"])
+        if tp is None:          # crashed inside the library: reported, nothing to validate
+            continue
         rows = read_ndjson(tp)
         end = rows[-1] if rows and rows[-1].get("ev") == "end" else None
         if not end:
